@@ -186,7 +186,7 @@ def coq_build(targets, timeout=3000):
 
 def coqc_file(path, timeout=1200):
     """Compile one .v file (not part of the project) against the built development."""
-    cmd = ["coqc", "-Q", os.path.join(COQ, "theories"), "KV", "-Q", os.path.join(COQ, "gen"), "KVGen",
+    cmd = ["coqc", "-noglob", "-Q", os.path.join(COQ, "theories"), "KV", "-Q", os.path.join(COQ, "gen"), "KVGen",
            "-w", "-notation-overridden,-deprecated-hint-without-locality,-deprecated-instance-without-locality",
            os.path.basename(path)]
     return run(cmd, cwd=os.path.dirname(path), timeout=timeout)
